@@ -114,6 +114,8 @@ type Sim struct {
 	Tape  *Tape
 	Cfg   FaultCfg
 	Phase string // setup | chaos | heal | probe
+	// OnlyPrefix, if set, restricts reported violations to signatures with this prefix.
+	OnlyPrefix string
 
 	mu       sync.Mutex
 	pending  []*Request
@@ -173,6 +175,12 @@ func (s *Sim) TraceHash() string { return hex.EncodeToString(s.hasher.Sum(nil)) 
 
 // Violate records a violation.
 func (s *Sim) Violate(sig, detail string) {
+	if s.OnlyPrefix != "" && !strings.HasPrefix(sig, s.OnlyPrefix) {
+		// a world borrowed by another property's check: that property's own
+		// oracles stay silent here (they are judged by their own check)
+		s.Probes["other-property-oracle-fired/"+strings.SplitN(sig, "/", 2)[0]]++
+		return
+	}
 	for _, v := range s.Violations {
 		if v.Signature == sig {
 			return
